@@ -18,3 +18,9 @@ open Cascette.Props.C17
 #print axioms ptr_touch_present_mru
 #print axioms ptr_refines_textbook_no_reload
 #print axioms ptr_refines_textbook_partial
+#print axioms ptr_refines_seq_full
+#print axioms ptr_refines_textbook_full
+#print axioms ptr_no_capacity_loss_full
+#print axioms ptr_reload_id_partial
+#print axioms ptr_touch_present_mru_full
+#print axioms ptr_checkpoint_file_wellformed
